@@ -26,6 +26,8 @@ pub fn random_par(rng: &mut Rng) -> String {
     let pool = [
         "\"a\"", "'b'", "/[a-z]+/", "/[0-9]+/", "/\\s+/", "/\\n/", "/\\r?\\n/", "/[^a]/", "/./", "/(.|\\n)/", "/[\\s\\S]/",
         "\"\\+\"", "/x*y/", "/[^\\r\\n]+/", "/\\p{L}+/", "\"a\" ?= \"b\"", "/[\\x00-\\x{10FFFF}]/",
+        // raw / string terminals whose TEXT looks like a catch-all or the error token but whose expansion is a literal
+        "'.'", "'.'", "'.*'", "'[^a]'", "\"\\.\"", "'\\s'",
     ];
     let n = rng.range(1, 4);
     let mut alts = vec![];
